@@ -23,7 +23,7 @@ const NON_IDENT_EXT: &[&str] = &["", " ", "(", " 4", "(4)", " x", "{x}", ")", "+
 /// one random character sequence over a token-ish alphabet
 pub fn gen_soup(r: &mut Rng, t: &[OpCfg], len: usize) -> String {
     let mut s = String::new();
-    let fixed = ["(", ")", ",", "{", "}", " ", "1", "2.5", ".", "x", "y", "{a b}", "z9", "_", "α", "é", "😀", "\t", "#", "$", "0.0.1"];
+    let fixed = ["(", ")", ",", "{", "}", " ", "1", "2.5", ".", "x", "y", "{a b}", "z9", "_", "α", "é", "😀", "\t", "#", "$", "0.0.1", "²", "½", "٣", "１", "Ⅷ", "①", "2²", "1.５"];
     for _ in 0..len {
         match r.below(10) {
             0..=3 => s.push_str(&t[r.below(t.len())].name),
@@ -201,7 +201,7 @@ pub fn gen(r: &mut Rng, _tier: &str, i: usize, stats: &mut BTreeMap<String, u64>
             for _ in 0..n {
                 s.push(*r.pick(&['0', '1', '.']));
             }
-            format!("{}{}", s, *r.pick(&["", "+x", " ", "x", "(", ".", "e5"]))
+            format!("{}{}", s, *r.pick(&["", "+x", " ", "x", "(", ".", "e5", "²", "٣", "１", "½"]))
         }
         3 => {
             // braces with arbitrary content
